@@ -219,6 +219,8 @@ func vfC06Run(e *vfEnv, r *vfResult, idx int) { //nolint:cyclop
 	ca.TCPPassive, cb.TCPPassive = s.rng.IntN(3) == 0, s.rng.IntN(3) == 0 // ICE-TCP passive local candidates (simulated TCP mux)
 	s.mappedSignalling = s.rng.IntN(3) == 0
 	s.desc["ipv4_mapped_signalling"] = s.mappedSignalling
+	s.mdnsSignalling = !s.mappedSignalling && s.rng.IntN(3) == 0
+	s.desc["mdns_signalling"] = s.mdnsSignalling
 	if variant == "filter" {
 		// each side rejects a random subset of the other's addresses (as seen on the wire)
 		mk := func(ips []string) func(netip.Addr) bool {
